@@ -1,0 +1,266 @@
+//go:build verif
+
+package collection
+
+// Contracts for the deductive verifier in /verif (vcgo). Comment-only.
+//
+// Representation invariant of Collection (properties C19, C14, C02, C01):
+// the id map `objs` is the abstract view; the spatial index, the value index,
+// the expiry index and the four counters are functions of that view.
+
+// ---- comparators -----------------------------------------------------------
+//@ ghost def lessID(a ref, b ref) bool = slt(objID(a), objID(b))
+//@ ghost def lessV(a ref, b ref) bool = slt(objStr(a), objStr(b)) || (objStr(a) == objStr(b) && slt(objID(a), objID(b)))
+//@ ghost def lessE(a ref, b ref) bool = objExpires(a) < objExpires(b) || (objExpires(a) == objExpires(b) && slt(objID(a), objID(b)))
+
+//@ func byID
+//@   ensures result == lessID(a, b)
+//@ func byValue
+//@   ensures result == lessV(a, b)
+//@ func byExpires
+//@   ensures result == lessE(a, b)
+
+// Calling the function value `byValue` means running byValue (whose contract is proved above).
+//@ axiom fn.byValue: allint(a, allint(b, apply2(funcref("collection.byValue"), a, b) == lessV(a, b)))
+//@ axiom fn.byExpires: allint(a, allint(b, apply2(funcref("collection.byExpires"), a, b) == lessE(a, b)))
+//@ lemma cmp.byValue.id: allint(a, allint(b, !lessV(a, b) && !lessV(b, a) ==> objID(a) == objID(b)))
+//@ lemma cmp.byExpires.id: allint(a, allint(b, !lessE(a, b) && !lessE(b, a) ==> objID(a) == objID(b) && objExpires(a) == objExpires(b)))
+
+// ---- counters as sums over the view (finite-sum update lemma, trusted) -----
+//@ ghost def indSpatial(o ref) int = ite(o != nil && objSpatial(o), 1, 0)
+//@ ghost def indString(o ref) int = ite(o != nil && !objSpatial(o), 1, 0)
+//@ ghost def indPoints(o ref) int = ite(o != nil, geoNumPoints(objGeo(o)), 0)
+//@ ghost def indWeight(o ref) int = ite(o != nil, objWeight(o), 0)
+//@ ghost func sumSpatial(v map[string]ref) int
+//@ ghost func sumString(v map[string]ref) int
+//@ ghost func sumPoints(v map[string]ref) int
+//@ ghost func sumWeight(v map[string]ref) int
+//@ axiom sum.empty: sumSpatial(emptyStrMap()) == 0 && sumString(emptyStrMap()) == 0 && sumPoints(emptyStrMap()) == 0 && sumWeight(emptyStrMap()) == 0
+//@ axiom sum.update: allof("map[string]ref", v, allstr(k, allint(o, sumSpatial(store(v, k, o)) == sumSpatial(v) - indSpatial(v[k]) + indSpatial(o) && sumString(store(v, k, o)) == sumString(v) - indString(v[k]) + indString(o) && sumPoints(store(v, k, o)) == sumPoints(v) - indPoints(v[k]) + indPoints(o) && sumWeight(store(v, k, o)) == sumWeight(v) - indWeight(v[k]) + indWeight(o))))
+
+// ---- the invariant ---------------------------------------------------------
+//@ ghost def inV(v map[string]ref, o ref) bool = o != nil && v[objID(o)] == o
+//@ ghost def viewOK(v map[string]ref) bool = allstr(k, v[k] != nil ==> objID(v[k]) == k)
+//@ ghost def spOK(v map[string]ref, sp map[ref]int) bool = allint(o, sp[o] == ite(inV(v, o) && objSpatial(o) && !geoEmpty(objGeo(o)), 1, 0))
+//@ ghost def valsOK(v map[string]ref, t map[int]ref, tr ref) bool = allint(o, inV(v, o) && !objSpatial(o) ==> t[keyOf(tr, o)] == o) && allint(k, t[k] != nil ==> inV(v, t[k]) && !objSpatial(t[k]) && keyOf(tr, t[k]) == k)
+//@ ghost def expsOK(v map[string]ref, t map[int]ref, tr ref) bool = allint(o, inV(v, o) && objExpires(o) != 0 ==> t[keyOf(tr, o)] == o) && allint(k, t[k] != nil ==> inV(v, t[k]) && objExpires(t[k]) != 0 && keyOf(tr, t[k]) == k)
+//@ ghost def keysByID(tr ref) bool = allint(a, allint(b, keyOf(tr, a) == keyOf(tr, b) ==> objID(a) == objID(b)))
+//@ ghost def keysByExp(tr ref) bool = allint(a, allint(b, keyOf(tr, a) == keyOf(tr, b) ==> objExpires(a) == objExpires(b)))
+//@ ghost macro idxBase(c, v) = c != nil && c.values != nil && c.expires != nil && c.values != c.expires && keysByID(c.values) && keysByID(c.expires) && keysByExp(c.expires) && viewOK(v)
+//@ ghost macro idxSp(c, v) = spOK(v, c.spatial)
+//@ ghost macro idxVals(c, v) = valsOK(v, *c.values, c.values)
+//@ ghost macro idxExps(c, v) = expsOK(v, *c.expires, c.expires)
+//@ ghost macro idxCnt(c, v) = c.objects == sumSpatial(v) && c.nobjects == sumString(v) && c.points == sumPoints(v) && c.weight == sumWeight(v)
+//@ ghost macro idxInv(c, v) = idxBase(c, v) && idxSp(c, v) && idxVals(c, v) && idxExps(c, v) && idxCnt(c, v)
+//@ ghost macro colInv(c) = idxInv(c, c.objs)
+
+//@ func New
+//@   uses btree.keyclass, fn.byValue, fn.byExpires, cmp.byValue.id, cmp.byExpires.id, sum.empty
+//@   ensures [a] result != nil && result.values != nil && result.expires != nil && result.values != result.expires && fresh(result) && result.objs == emptyStrMap()
+//@   ensures [b] keysByID(result.values) 
+//@   ensures [c] keysByID(result.expires) && keysByExp(result.expires)
+//@   ensures [d] viewOK(result.objs) && spOK(result.objs, result.spatial)
+//@   ensures [e] valsOK(result.objs, *result.values, result.values) && expsOK(result.objs, *result.expires, result.expires)
+//@   ensures [f] result.objects == sumSpatial(result.objs) && result.nobjects == sumString(result.objs) && result.points == sumPoints(result.objs) && result.weight == sumWeight(result.objs)
+//@   ensures [inv] colInv(result)
+
+//@ func Collection.Count
+//@   requires c != nil
+//@   modifies nothing
+//@   ensures result == c.objects + c.nobjects
+//@ func Collection.StringCount
+//@   requires c != nil
+//@   modifies nothing
+//@   ensures result == c.nobjects
+//@ func Collection.PointCount
+//@   requires c != nil
+//@   modifies nothing
+//@   ensures result == c.points
+//@ func Collection.TotalWeight
+//@   requires c != nil
+//@   modifies nothing
+//@   ensures result == c.weight
+
+// rtreeValueDown/Up are functions of their argument only: vdown/vup name "what they return"
+// (their rounding property is proved separately in ieee mode, see rtreeValueDown.ieee below).
+//@ ghost func vdown(d float64) float64
+//@ ghost func vup(d float64) float64
+//@ func rtreeValueDown
+//@   deterministic
+//@   modifies nothing
+//@   ensures [def] result == vdown(d)
+//@ func rtreeValueUp
+//@   deterministic
+//@   modifies nothing
+//@   ensures [def] result == vup(d)
+//@ func rtreeRect
+//@   modifies nothing
+//@   ensures len(min) == 2 && len(max) == 2 && min[0] == vdown(rect.Min.X) && min[1] == vdown(rect.Min.Y) && max[0] == vup(rect.Max.X) && max[1] == vup(rect.Max.Y)
+//@ func rtreeItem
+//@   modifies nothing
+//@   ensures data == item
+
+//@ func Collection.indexInsert
+//@   requires c != nil && item != nil
+//@   modifies c.spatial
+//@   ensures c.spatial == ite(geoEmpty(objGeo(item)), old(c.spatial), store(old(c.spatial), item, old(c.spatial)[item] + 1))
+//@ func Collection.indexDelete
+//@   requires c != nil && item != nil
+//@   modifies c.spatial
+//@   ensures c.spatial == ite(geoEmpty(objGeo(item)), old(c.spatial), store(old(c.spatial), item, ite(old(c.spatial)[item] > 0, old(c.spatial)[item] - 1, 0)))
+
+//@ func Collection.setFill
+//@   uses sum.update
+//@   requires obj != nil && c != nil && c.objs[objID(obj)] == obj && prev != obj
+//@   requires prev != nil ==> objID(prev) == objID(obj)
+//@   requires idxInv(c, store(c.objs, objID(obj), prev)) && !inV(store(c.objs, objID(obj), prev), obj)
+//@   modifies c, *c.values, *c.expires
+//@   ensures [frame] c.objs == old(c.objs) && c.values == old(c.values) && c.expires == old(c.expires)
+//@   ensures [spatial] idxSp(c, c.objs)
+//@   ensures [values] idxVals(c, c.objs)
+//@   ensures [expires] idxExps(c, c.objs)
+//@   ensures [counters] idxCnt(c, c.objs)
+
+//@ func Collection.Set
+//@   uses sum.update
+//@   requires obj != nil && colInv(c) && !inV(c.objs, obj)
+//@   modifies c, *c.values, *c.expires
+//@   ensures [view] c.objs == store(old(c.objs), objID(obj), obj) && prev == old(c.objs)[objID(obj)]
+//@   ensures [inv] colInv(c)
+
+//@ func Collection.Delete
+//@   uses sum.update
+//@   requires colInv(c)
+//@   modifies c, *c.values, *c.expires
+//@   ensures [view] c.objs == store(old(c.objs), id, nil) && prev == old(c.objs)[id]
+//@   ensures [base] idxBase(c, c.objs)
+//@   ensures [spatial] idxSp(c, c.objs)
+//@   ensures [values] idxVals(c, c.objs)
+//@   ensures [expires] idxExps(c, c.objs)
+//@   ensures [counters] idxCnt(c, c.objs)
+
+//@ func Collection.Get
+//@   requires c != nil
+//@   modifies nothing
+//@   ensures result == c.objs[id]
+
+// ---- cursors and iteration (property C11) -----------------------------------
+// A Cursor is an interface; its offset is a pure attribute, the steps it has been
+// told about are ghost state.
+//@ ghost func curOffset(cur ref) int
+//@ ghost var steps map[ref]int
+//@ func Cursor.Offset(c)
+//@   assumed
+//@   modifies nothing
+//@   ensures result == curOffset(c) && result >= 0
+//@ func Cursor.Step(c, count)
+//@   assumed
+//@   modifies steps
+//@   ensures steps == store(old(steps), c, old(steps)[c] + count)
+
+//@ func nextStep
+//@   modifies steps
+//@   ensures cursor != nil ==> steps == store(old(steps), cursor, old(steps)[cursor] + 1)
+//@   ensures cursor == nil ==> steps == old(steps)
+
+//@ ghost macro offOf(cursor) = ite(cursor == nil, 0, curOffset(cursor))
+//@ ghost macro scanSeq(c, desc) = ite(desc, mapValsDesc(c.objs), mapVals(c.objs))
+
+// Iterating functions carry an `iterates` clause: the function behaves like
+//     for k := range S { if when(S[k]) { if !callback(args(S[k])) { break } } }
+// It is proved on the body (obligations iterates.<cb>/not-after-stop, /position, /consecutive or /skipped+/when,
+// /argN at every invocation, /complete at every return) and used by callers, whose closure is verified in place as a
+// loop over S. `nvisited` is the number of elements of S consumed, `lastret` the callback's last answer.
+//@ ghost macro fromOff(s, cursor) = s[min(offOf(cursor), len(s)):]
+//@ ghost macro iterInv(cb, cursor, offset, count, idx, keepon) = keepon && lastret(cb) && offset == offOf(cursor) && count == idx && nextpos(cb) == max(idx - offset, 0) && (cursor != nil ==> steps[cursor] == old(steps)[cursor] + offset + max(idx - offset, 0))
+
+//@ func Collection.Scan
+//@   requires c != nil
+//@   iterates iterator seq fromOff(scanSeq(c, desc), cursor) args it position count - 1 - offset
+//@   modifies steps
+//@   ensures [result] result == lastret
+//@   ensures [steps] cursor != nil ==> steps[cursor] == old(steps)[cursor] + offOf(cursor) + nvisited
+//@   loop 1 invariant iterInv(iterator, cursor, offset, count, idx1, keepon)
+//@   loop 2 invariant iterInv(iterator, cursor, offset, count, idx2, keepon)
+
+//@ ghost macro geSeq(c, id, desc) = ite(desc, mapValsDescFrom(c.objs, id), mapValsFrom(c.objs, id))
+//@ func Collection.ScanGreaterOrEqual
+//@   requires c != nil
+//@   iterates iterator seq fromOff(geSeq(c, id, desc), cursor) args it position count - 1 - offset
+//@   modifies steps
+//@   ensures [result] result == lastret
+//@   ensures [steps] cursor != nil ==> steps[cursor] == old(steps)[cursor] + offOf(cursor) + nvisited
+//@   loop 1 invariant iterInv(iterator, cursor, offset, count, idx1, keepon)
+//@   loop 2 invariant iterInv(iterator, cursor, offset, count, idx2, keepon)
+
+//@ ghost macro valSeq(c, desc) = ite(desc, treeDesc(c.values, *c.values), treeAsc(c.values, *c.values))
+//@ func Collection.SearchValues
+//@   requires c != nil && c.values != nil
+//@   iterates iterator seq fromOff(valSeq(c, desc), cursor) args it position count - 1 - offset
+//@   modifies steps
+//@   ensures [result] result == lastret
+//@   ensures [steps] cursor != nil ==> steps[cursor] == old(steps)[cursor] + offOf(cursor) + nvisited
+//@   loop 1 invariant iterInv(iterator, cursor, offset, count, idx1, keepon)
+//@   loop 2 invariant iterInv(iterator, cursor, offset, count, idx2, keepon)
+
+// ScanRange: as ScanGreaterOrEqual, cut at the first id beyond the end bound.
+// rangeEnd(s, from, end, desc) = index of the first element at or after `from` whose id is beyond `end` (or len(s)).
+//@ ghost macro inRange(o, end, desc) = ite(desc, slt(end, objID(o)), slt(objID(o), end))
+//@ ghost func rangeEnd(s []ref, from int, end string, desc bool) int
+//@ axiom rangeend.range: allof("[]ref", s, allint(f, allstr(e, allof("bool", d, 0 <= f && f <= len(s) ==> f <= rangeEnd(s, f, e, d) && rangeEnd(s, f, e, d) <= len(s)))))
+//@ axiom rangeend.in: allof("[]ref", s, allint(f, allstr(e, allof("bool", d, allint(i, f <= i && i < rangeEnd(s, f, e, d) ==> inRange(s[i], e, d))))))
+//@ axiom rangeend.out: allof("[]ref", s, allint(f, allstr(e, allof("bool", d, rangeEnd(s, f, e, d) < len(s) ==> !inRange(s[rangeEnd(s, f, e, d)], e, d)))))
+//@ ghost macro offIn(s, cursor) = min(offOf(cursor), len(s))
+//@ ghost macro rangeSeq(c, start, end, desc, cursor) = geSeq(c, start, desc)[offIn(geSeq(c, start, desc), cursor):rangeEnd(geSeq(c, start, desc), offIn(geSeq(c, start, desc), cursor), end, desc)]
+//@ func Collection.ScanRange
+//@   uses rangeend.range, rangeend.in, rangeend.out
+//@   requires c != nil
+//@   iterates iterator seq rangeSeq(c, start, end, desc, cursor) args it position count - 1 - offset
+//@   modifies steps
+//@   ensures [steps] cursor != nil ==> steps[cursor] >= old(steps)[cursor] + offOf(cursor) + nvisited && steps[cursor] <= old(steps)[cursor] + offOf(cursor) + nvisited + 1
+//@   loop 1 invariant keepon && lastret(iterator) && offset == offOf(cursor) && count == idx1 && nextpos(iterator) == max(idx1 - offset, 0) && (cursor != nil ==> steps[cursor] == old(steps)[cursor] + offset + max(idx1 - offset, 0))
+//@   loop 1 invariant max(idx1, offIn(geSeq(c, start, desc), cursor)) <= rangeEnd(geSeq(c, start, desc), offIn(geSeq(c, start, desc), cursor), end, desc)
+//@   loop 2 invariant keepon && lastret(iterator) && offset == offOf(cursor) && count == idx2 && nextpos(iterator) == max(idx2 - offset, 0) && (cursor != nil ==> steps[cursor] == old(steps)[cursor] + offset + max(idx2 - offset, 0))
+//@   loop 2 invariant max(idx2, offIn(geSeq(c, start, desc), cursor)) <= rangeEnd(geSeq(c, start, desc), offIn(geSeq(c, start, desc), cursor), end, desc)
+
+// ---- spatial iteration ------------------------------------------------------
+//@ ghost macro geoSeq(c, minx, miny, maxx, maxy) = rtSearch(c.spatial, vdown(minx), vdown(miny), vup(maxx), vup(maxy))
+//@ func Collection.geoSearch
+//@   requires c != nil
+//@   iterates iter seq geoSeq(c, rect.Min.X, rect.Min.Y, rect.Max.X, rect.Max.Y) args it position idx1
+//@   modifies nothing
+//@   ensures [result] result == lastret
+//@   loop 1 invariant alive && lastret(iter) && nextpos(iter) == idx1
+
+//@ ghost macro geoSeqObj(c, obj) = geoSeq(c, gMinX(obj), gMinY(obj), gMaxX(obj), gMaxY(obj))
+//@ func Collection.Within
+//@   requires c != nil && obj != nil
+//@   iterates iter seq fromOff(geoSeqObj(c, obj), cursor) args it when gWithin(objGeo(it), obj) position count - 1 - offset if sparse == 0
+//@   invokes iter only gWithin(objGeo(it), obj)
+//@   modifies steps
+//@   ensures [steps] sparse == 0 && cursor != nil ==> steps[cursor] == old(steps)[cursor] + offOf(cursor) + nvisited
+//@   loop 1 invariant lastret(iter) && offset == offOf(cursor) && count == idx1 && nextpos(iter) <= max(idx1 - offset, 0) && (cursor != nil ==> steps[cursor] == old(steps)[cursor] + offset + max(idx1 - offset, 0))
+//@   loop 1 invariant forall(m, nextpos(iter), max(idx1 - offset, 0), !gWithin(objGeo(fromOff(geoSeqObj(c, obj), cursor)[m]), obj))
+
+//@ func Collection.Intersects
+//@   requires c != nil && gobj != nil
+//@   iterates iter seq fromOff(geoSeqObj(c, gobj), cursor) args it when gIntersects(objGeo(it), gobj) position count - 1 - offset if sparse == 0
+//@   invokes iter only gIntersects(objGeo(it), gobj)
+//@   modifies steps
+//@   ensures [steps] sparse == 0 && cursor != nil ==> steps[cursor] == old(steps)[cursor] + offOf(cursor) + nvisited
+//@   loop 1 invariant lastret(iter) && offset == offOf(cursor) && count == idx1 && nextpos(iter) <= max(idx1 - offset, 0) && (cursor != nil ==> steps[cursor] == old(steps)[cursor] + offset + max(idx1 - offset, 0))
+//@   loop 1 invariant forall(m, nextpos(iter), max(idx1 - offset, 0), !gIntersects(objGeo(fromOff(geoSeqObj(c, gobj), cursor)[m]), gobj))
+
+// Nearby: the consumer sees the R-tree's best-first sequence from the cursor offset on, each with the distance the
+// R-tree computed for it (rtDist). That this sequence is ordered by true distance is not decided here (C13).
+//@ func geodeticDistAlgo
+//@   inline
+//@ func pointRectDistGeodeticDeg
+//@   modifies nothing
+//@ func Collection.Nearby
+//@   requires c != nil && target != nil
+//@   iterates iter seq fromOff(rtNearby(c.spatial), cursor) args it position count - 1 - offset
+//@   modifies steps
+//@   ensures [result] result == lastret
+//@   ensures [steps] cursor != nil ==> steps[cursor] == old(steps)[cursor] + offOf(cursor) + nvisited
+//@   loop 1 invariant iterInv(iter, cursor, offset, count, idx1, alive)
